@@ -99,11 +99,37 @@ def run_zone(out, stream, zone, cases, res=None):
     lib.differential(out, "zone-model-vs-zoneinfo", [{"zone": zone, "t": t} for t in ts], want, loc, None, lambda c: "local time of %d in %s" % (c["t"], c["zone"]))
 
 
+def run_created(out, rnd, zone, n):
+    """the encoder as create_schedule reaches it: the two stamps of the record it sends are the epoch seconds of the two clock strings on
+    today's local date (also when the slot ends before it starts: it is tomorrow's business, not the record's), and a string that is not
+    HH:MM sends nothing"""
+    import struct
+    tz = zoneinfo.ZoneInfo(zone); cases = []
+    for now in world.interesting_instants(rnd, zone, max(2, n // 12)):
+        for _ in range(12):
+            a = world.rand_clock(rnd, .2); b = world.rand_clock(rnd, .2)
+            if rnd.random() < .3 and classify_string(a) is not None: b = "%02d:%02d" % divmod((classify_string(a) - rnd.randrange(1, 600)) % 1440, 60)     # a slot over midnight
+            cases.append({"zone": zone, "now": now, "start": a, "end": b, "days": sorted(rnd.sample(range(7), rnd.randrange(0, 4))), "slot": 1})
+    res = world.zone_job(zone, "create_readback", cases); io = []; ex = []
+    for c, r in zip(cases, res):
+        ms = [classify_string(c["start"]), classify_string(c["end"])]; today = D.datetime.fromtimestamp(c["now"], tz).date()
+        if r.get("created", "raised") == "raised": io.append("raised")
+        else:
+            f = bytes.fromhex(r["created"]); st = struct.unpack("<II", f[87:95]); pre = [preimages(tz, today, m) if m is not None else set() for m in ms]
+            io.append("stamps of today's %s and %s" % tuple(("%02d:%02d" % divmod(m, 60)) if (m is not None and t in p_) else "? (%d)" % t for m, t, p_ in zip(ms, st, pre)))
+        if None in ms: ex.append("raised")
+        elif not all(preimages(tz, today, m) for m in ms): ex.append("-")
+        else: ex.append("stamps of today's %02d:%02d and %02d:%02d" % (divmod(ms[0], 60) + divmod(ms[1], 60)))
+    lib.differential(out, "the-stamps-create_schedule-sends", cases, io, None, ex, lambda c: "zone %s now %d create_schedule(%r, %r, days %s)" % (c["zone"], c["now"], c["start"], c["end"], c["days"]),
+                     nontrivial=lambda c: classify_string(c["start"]) is not None, sample=lambda c: c, classify=lambda c, i: zone + "/created")
+
+
 def run(tier, rnd, out):
     # Casablanca and Mexico City: the offset changes although January and July agree (what C's `daylight` flag looks at)
     zones = world.ZONES_QUICK + ["Africa/Casablanca", "America/Mexico_City"] if tier == "quick" else world.ZONES_QUICK + world.ZONES_MORE + ["America/Mexico_City"]
     for c in lib.load_corpus("C11"): run_zone(out, "corpus", c["zone"], [c])
     for zone in zones: run_zone(out, "encode-decode", zone, gen(rnd, zone, tier))
+    for zone in zones[:4] if tier == "quick" else zones: run_created(out, rnd, zone, 60 if tier == "quick" else 600)
     # ONE process whose host zone is switched (TZ + tzset) between calls: the same clock strings at the same instants under zones that share
     # their standard offset but not their summer time (and unrelated ones), each zone visited twice
     groups = [["Europe/London", "UTC", "Africa/Abidjan"], ["America/New_York", "America/Lima", "America/Bogota"], ["Australia/Sydney", "Australia/Brisbane"],
@@ -133,6 +159,9 @@ def run(tier, rnd, out):
 
 def replay(rp, out):
     c = rp["input"]
+    if "slot" in c:
+        import random
+        return run_created(out, random.Random(int(rp.get("seed", 1))), c["zone"], 120)
     if "s" in c: run_zone(out, rp.get("stream", "replay"), c["zone"], [c])
     elif "t" in c:          # a timestamp decoded under this zone after the same under another zone of the same standard offset, in one process
         other = {"UTC": "Europe/London", "Europe/London": "UTC"}.get(c["zone"], "UTC"); hx = c["t"].to_bytes(4, "little").hex()
